@@ -110,7 +110,7 @@ func VH_C01_boc_chain(k int, sym bool) {
 // A diamond: the root references two cells that both reference one shared leaf, plus a twin leaf
 // with EQUAL contents in a different object: shared and equal sub-trees are stored once.
 func VH_C01_boc_sharing() {
-	leaf := vChainCell(7, true)
+	leaf := vChainCell(7, false) // concrete: with a symbolic leaf the de-duplication (hash-keyed map) is symbolic and solver-time dependent
 	twin := NewCell()
 	ts := leaf.bits.Copy()
 	_ = twin.WriteBitString(ts)
@@ -348,7 +348,7 @@ func vLeaf(tag int, sym bool) *Cell {
 // Other DAG shapes through the whole serialiser (import, hash-keyed de-duplication, weight-based
 // reordering, header) and back: shape 0 = a root with four leaves; 1 = two levels with a leaf shared
 // by both inner cells; 2 = a leaf shared at two different depths (it has to be stored after every
-// cell that refers to it).  The root carries symbolic bits (shape 2: the shared leaf too); the three options are symbolic.
+// cell that refers to it).  The root carries symbolic bits, the other cells are concrete (symbolic leaves make the de-duplication symbolic and solver-time dependent); opts 0..7 fixes the three options, -1 makes them symbolic.
 func VH_C01_boc_dag(shape int, opts int) {
 	root := vChainCell(0, true)
 	cells := 0
@@ -369,7 +369,7 @@ func VH_C01_boc_dag(shape int, opts int) {
 		_ = root.AddRef(b)
 		cells = 6
 	default:
-		leaf := vLeaf(31, true)
+		leaf := vLeaf(31, false)
 		b := vChainCell(2, false)
 		_ = b.AddRef(leaf)
 		a := vChainCell(1, false)
